@@ -73,6 +73,18 @@ func bcryptKeyBytes(pw string, prefix string) []byte {
 
 var cheapSha2 = []int{1000, 1001, 1003}
 
+// costTables: the costs NewHash is asked for, by call index (cheap ones often, the rest of the lower range -- digit-count
+// changes 9/10, 99/100, 9999/10000, the 6-bit digit boundaries of extended DES -- once per cycle)
+var (
+	costSha2   = []int{1000, 1001, 1003, 1000, 1009, 1010, 1000, 1099, 1100, 1001, 2000, 9999, 10000, 1003}
+	costSha1   = []int{1, 2, 3, 4, 5, 6, 7, 8, 9, 10, 11, 12, 13, 14, 15, 16, 17, 18, 19, 20, 21, 22, 23, 24, 25, 26, 27, 28, 29, 30, 31, 32, 33, 34, 35, 36, 37, 38, 39, 40, 99, 100, 101, 1000}
+	costSunmd5 = []int{0, 1, 2, 0, 9, 10, 1, 11, 99, 100, 2}
+	costDesext = []int{1, 2, 3, 4, 5, 63, 64, 65, 1, 4095, 4096, 4097, 3}
+	costBcrypt = []int{4, 5, 4, 6, 5, 7, 4, 8, 5, 9, 4, 10}
+	costArgonM = []int{8, 9, 10, 11, 12, 13, 14, 15, 16, 31, 32, 33, 63, 64, 65, 99, 100, 1024}
+	costArgonT = []int{1, 2, 1, 3, 2, 9, 1, 10, 2, 11}
+)
+
 var schemes = []*schemeOps{
 	{name: "md5", tag: 1, check: md5.Check, coqName: "md5",
 		newHash: func(pw string, c int) (string, error) { return md5.NewHash(pw), nil },
@@ -81,7 +93,7 @@ var schemes = []*schemeOps{
 		kdfArgs: func(pw string, p hparams) ([][]byte, []int64) { return [][]byte{[]byte(pw), p.salt}, nil },
 	},
 	{name: "sha256", tag: 5, check: sha256.Check, coqName: "sha256",
-		newHash: func(pw string, c int) (string, error) { return sha256.NewHash(pw, uint32(cheapSha2[c%3])) },
+		newHash: func(pw string, c int) (string, error) { return sha256.NewHash(pw, uint32(costSha2[c%len(costSha2)])) },
 		params: func(h string) (hparams, error) {
 			s, r, err := sha256.Params(h)
 			return hparams{salt: s, nums: []int64{int64(r)}}, err
@@ -90,7 +102,7 @@ var schemes = []*schemeOps{
 		kdfArgs: func(pw string, p hparams) ([][]byte, []int64) { return [][]byte{[]byte(pw), p.salt}, p.nums },
 	},
 	{name: "sha512", tag: 6, check: sha512.Check, coqName: "sha512",
-		newHash: func(pw string, c int) (string, error) { return sha512.NewHash(pw, uint32(cheapSha2[c%3])) },
+		newHash: func(pw string, c int) (string, error) { return sha512.NewHash(pw, uint32(costSha2[c%len(costSha2)])) },
 		params: func(h string) (hparams, error) {
 			s, r, err := sha512.Params(h)
 			return hparams{salt: s, nums: []int64{int64(r)}}, err
@@ -99,7 +111,7 @@ var schemes = []*schemeOps{
 		kdfArgs: func(pw string, p hparams) ([][]byte, []int64) { return [][]byte{[]byte(pw), p.salt}, p.nums },
 	},
 	{name: "sha1", tag: 7, check: sha1.Check, coqName: "sha1",
-		newHash:    func(pw string, c int) (string, error) { return sha1.NewHash(pw, uint32(1+c%40)) },
+		newHash:    func(pw string, c int) (string, error) { return sha1.NewHash(pw, uint32(costSha1[c%len(costSha1)])) },
 		newHashRaw: func(pw string, c uint32) (string, error) { return sha1.NewHash(pw, c) },
 		params: func(h string) (hparams, error) {
 			s, r, err := sha1.Params(h)
@@ -109,7 +121,9 @@ var schemes = []*schemeOps{
 		kdfArgs: func(pw string, p hparams) ([][]byte, []int64) { return [][]byte{[]byte(pw), p.salt}, p.nums },
 	},
 	{name: "sunmd5", tag: 8, check: sunmd5.Check, coqName: "sunmd5",
-		newHash: func(pw string, c int) (string, error) { return sunmd5.NewHash(pw, uint32(c%3)) },
+		newHash: func(pw string, c int) (string, error) {
+			return sunmd5.NewHash(pw, uint32(costSunmd5[c%len(costSunmd5)]))
+		},
 		params: func(h string) (hparams, error) {
 			s, r, o, err := sunmd5.Params(h)
 			if err != nil {
@@ -135,7 +149,9 @@ var schemes = []*schemeOps{
 		kdfArgs: func(pw string, p hparams) ([][]byte, []int64) { return [][]byte{[]byte(pw), p.salt}, nil },
 	},
 	{name: "desext", tag: 10, check: desext.Check, coqName: "desext",
-		newHash: func(pw string, c int) (string, error) { return desext.NewHash(pw, uint32(1+c%5)) },
+		newHash: func(pw string, c int) (string, error) {
+			return desext.NewHash(pw, uint32(costDesext[c%len(costDesext)]))
+		},
 		params: func(h string) (hparams, error) {
 			s, r, err := desext.Params(h)
 			return hparams{salt: s, nums: []int64{int64(r)}}, err
@@ -144,7 +160,9 @@ var schemes = []*schemeOps{
 		kdfArgs: func(pw string, p hparams) ([][]byte, []int64) { return [][]byte{[]byte(pw), p.salt}, p.nums },
 	},
 	{name: "bcrypt", tag: 2, check: bcrypt.Check, coqName: "bcrypt",
-		newHash: func(pw string, c int) (string, error) { return bcrypt.NewHash(pw, uint8(4+c%2)) },
+		newHash: func(pw string, c int) (string, error) {
+			return bcrypt.NewHash(pw, uint8(costBcrypt[c%len(costBcrypt)]))
+		},
 		params: func(h string) (hparams, error) {
 			s, c, o, err := bcrypt.Params(h)
 			if err != nil {
@@ -172,7 +190,9 @@ var schemes = []*schemeOps{
 		kdfArgs: func(pw string, p hparams) ([][]byte, []int64) { return [][]byte{ntEncode(pw)}, nil },
 	},
 	{name: "argon2", tag: 4, check: argon2.Check, coqName: "argon2",
-		newHash: func(pw string, c int) (string, error) { return argon2.NewHash(pw, uint32(8+c%9), uint32(1+c%2)) },
+		newHash: func(pw string, c int) (string, error) {
+			return argon2.NewHash(pw, uint32(costArgonM[c%len(costArgonM)]), uint32(costArgonT[c%len(costArgonT)]))
+		},
 		params: func(h string) (hparams, error) {
 			s, m, t, th, o, err := argon2.Params(h)
 			if err != nil {
